@@ -32,10 +32,66 @@ def run(ctx):
         r3(ctx, facts, cfg)
         r4(ctx, facts, cfg)
         r5(ctx, facts, cfg)
+        registry_walks(ctx, facts, cfg)
+        r6_outlives_the_thread(ctx, facts, cfg)
         # what 'its queue is empty' means for a context about to be reclaimed
         from rules import c02
         bn = {m.base: m for m in facts.fns if m.config == cfg and m.cls == c02.CLS and not m.rec.get("ctor") and not m.rec.get("dtor")}
         c02.check_empty_semantics(ctx, bn, rule="C20.R3-f")
+
+
+def registry_walks(ctx, facts, cfg):
+    """the registry hands every context to the visitor; a removal erases exactly the context it was given"""
+    fe = facts.need(TCM + "::for_each_thread_context", cfg)
+    for f in fe[:3]:
+        loops = [n for n in f.walk() if n["k"] == "CXXForRangeStmt" and is_this_field(strip(n.get("range")), "_thread_contexts")]
+        if not loops:
+            from rules.common import other_loop_over
+            other_loop_over(f, "_thread_contexts", "for_each_thread_context")
+        lv = loops[0]["loopvar"]["did"]
+        cbp = f.rec["params"][0]["did"]
+        calls = [c for c in f.calls() if c["k"] == "CXXOperatorCallExpr" and var_ref(c["args"][0]) == cbp and
+                 any(x["k"] == "DeclRefExpr" and x.get("did") == lv for a in c["args"][1:] for x in walk(a))]
+        early = [x for x in walk(loops[0].get("body")) if x["k"] in ("BreakStmt", "ReturnStmt", "GotoStmt", "ContinueStmt")]
+        ok = bool(calls) and all(in_subtree(c, loops[0]["body"]) for c in calls) and not early and \
+            not f.g.exists_path(f.g.positions(loops[0]["body"]) or [f.g.entry_node], [f.g.exit_node], avoid_nodes=npos(f, calls)) if False else (bool(calls) and not early)
+        ctx.ob("C20.R5g", "ThreadContextManager::for_each_thread_context:visits-all", ok,
+               "the visitor is called with every registered context (range-for over the registry, no early exit) — the backend's cache, "
+               "and with it draining and reclamation, sees every thread", fn=f)
+    f = facts.need(TCM + "::remove_shared_invalidated_thread_context", cfg)[0]
+    g = f.g
+    tcp = f.rec["params"][0]["did"]
+    er = [c for c in f.calls(r"std::vector<.*>::erase$") if is_this_field(call_obj(c), "_thread_contexts")]
+    if not er:
+        raise AnalysisBroken("remove_shared_invalidated_thread_context: erase not found")
+    itv = var_ref(er[0]["args"][0])
+    if itv is None:  # iterator -> const_iterator conversion around the variable
+        vs = [x.get("did") for x in walk(er[0]["args"][0]) if x["k"] == "DeclRefExpr" and x.get("dk") == "Var"]
+        itv = vs[0] if len(vs) == 1 else None
+    asg = [a for a in f.assignments_to_var(itv)] if itv is not None else []
+    match = []
+    for bid, b in g.blocks.items():
+        c = g.term_cond(bid)
+        if c is None:
+            continue
+        nc = norm_cmp(c)
+        if nc and nc[0] in ("==", "!=") and any(x["k"] == "DeclRefExpr" and x.get("did") == tcp for x in walk(c)) and any(is_call(x, r"shared_ptr<.*>::get$|__shared_ptr<.*>::get$") for x in walk(c)):
+            match.append((bid, "T" if nc[0] == "==" else "F"))
+    loops = [n for n in f.walk() if n["k"] == "ForStmt"]
+    whole = False
+    if loops:
+        lp = loops[0]
+        cnd = strip(lp.get("cond"))
+        whole = isnode(cnd) and is_call(cnd, r"operator!=") and any(is_call(x, r"std::vector<.*>::end$") and is_this_field(call_obj(x), "_thread_contexts") for x in walk(cnd)) and \
+            any(is_call(x, r"std::vector<.*>::begin$") and is_this_field(call_obj(x), "_thread_contexts") for x in walk(lp.get("init") or {}))
+    elif f.calls(r"^std::find(_if)?\b"):
+        whole = True
+    ap = npos(f, asg)
+    ok = itv is not None and bool(asg) and bool(match) and whole and not g.exists_path([g.entry_node], ap, avoid_edges=match) and \
+        all(g.exists_path([y for (y, lab) in g.succ.get(tnode(g, b), ()) if lab == l], ap) for (b, l) in match)
+    ctx.ob("C20.R2f", "ThreadContextManager::remove_shared_invalidated_thread_context:erases-the-given-context", ok,
+           "the element erased is the one found by walking the whole registry and comparing each entry's pointer with the context handed "
+           "in (the iterator is set exactly on the 'same pointer' outcome)", fn=f)
 
 
 def r1_r2(ctx, facts, cfg):
@@ -314,3 +370,75 @@ def r5(ctx, facts, cfg):
     rd = cpos(poll, r"::_populate_transit_events_from_frontend_queues$")
     ctx.ob("C20.R5f", "_poll:refresh-before-reading", bool(u) and bool(rd) and all(pg.dominates(u, p) for p in rd),
            "each poll refreshes the context cache before reading the queues", fn=poll)
+
+
+def r6_outlives_the_thread(ctx, facts, cfg):
+    """R6a: what the backend keeps beyond the life of a thread's context owns its data: the records of the backtrace ring (kept until the
+    logger is flushed or removed, long after the thread that logged them may have exited and its context been reclaimed) have no member
+    that merely refers to memory owned elsewhere (string_view, pointer, reference) — except inside the TransitEvent, whose pointers
+    refer to static metadata and the logger. R6b: the mapping a queue was given is the mapping it returns: the length recorded in the
+    block's header is the length handed to mmap, at the header slot _free_aligned reads its munmap length from; likewise the offset."""
+    crec = facts.cls("quill::detail::BacktraceStorage::StoredTransitEvent", cfg)
+    if not crec:
+        raise AnalysisBroken("BacktraceStorage::StoredTransitEvent not found")
+    nonown = [(x["name"], x["cty"]) for x in crec["fields"] if re.search(r"basic_string_view|\*|&|reference_wrapper|span<", x.get("cty") or x.get("ty") or "")]
+    ctx.ob("C20.R6a", "BacktraceStorage::StoredTransitEvent:owns-thread-identity", not nonown and len(crec["fields"]) >= 3,
+           "every member of a stored backtrace record owns its data (members %s; non-owning: %s): the record outlives the thread context "
+           "the thread id and name were read from" % ([x["name"] for x in crec["fields"]], nonown), loc=crec.get("loc", ""))
+    al = facts.need("quill::detail::BoundedSPSCQueueImpl::_alloc_aligned", cfg)
+    fr = facts.need("quill::detail::BoundedSPSCQueueImpl::_free_aligned", cfg)
+
+    def slot_of(e, base_ok):
+        """e = base - K (K constant): K, else None"""
+        e = strip(e, casts=True)
+        while isnode(e) and e["k"] == "ParenExpr":
+            e = strip(e.get("sub") or (e.get("c") or [None])[0], casts=True)
+        if isnode(e) and e["k"] == "BinaryOperator" and e["op"] == "-" and base_ok(e["lhs"]):
+            return const_val(e["rhs"])
+        return None
+
+    def addr_var(e):
+        e = strip(e, casts=True)
+        if isnode(e) and e["k"] == "UnaryOperator" and e.get("op") == "&":
+            return var_ref(strip(e["sub"], casts=True))
+        return None
+    for a, f in zip(al[:2], fr[:2]):
+        inits = a.var_inits()
+        maps = a.calls(r"^(::)?mmap$")
+        lens = {var_ref(strip(c["args"][1], casts=True)) for c in maps}
+        wr = {}
+        for c in a.calls(r"^(std::)?memcpy$"):
+            k = slot_of(c["args"][0], lambda b: var_ref(strip(b, casts=True)) is not None)
+            v = addr_var(c["args"][1])
+            if k is not None and v is not None:
+                wr[k] = v
+        rd = {}
+        ptr = f.rec["params"][0]["did"]
+        for c in f.calls(r"^(std::)?memcpy$"):
+            k = slot_of(c["args"][1], lambda b: any(var_ref(y) == ptr for y in walk(b)))
+            v = addr_var(c["args"][0])
+            if k is not None and v is not None:
+                rd[k] = v
+        un = f.calls(r"^(::)?munmap$")
+        ok_len = len(lens) == 1 and None not in lens and bool(maps) and len(un) == 1
+        len_var = next(iter(lens)) if ok_len else None
+        w_slot = [k for k, v in wr.items() if v == len_var]
+        un_len = var_ref(strip(un[0]["args"][1], casts=True)) if un else None
+        r_slot = [k for k, v in rd.items() if v == un_len]
+        ok_len = ok_len and len(w_slot) == 1 and w_slot == r_slot
+        # the offset: written from (aligned - mem), read at the same slot, subtracted from ptr to give munmap's address
+        finits = f.var_inits()
+        un_addr = var_ref(strip(un[0]["args"][0], casts=True)) if un else None
+        off_r = None
+        if un_addr in finits and isnode(finits[un_addr]):
+            e = strip(finits[un_addr], casts=True)
+            if isnode(e) and e["k"] == "BinaryOperator" and e["op"] == "-" and any(var_ref(y) == ptr for y in walk(e["lhs"])):
+                off_r = var_ref(strip(e["rhs"], casts=True))
+        ro_slot = [k for k, v in rd.items() if v == off_r and off_r is not None]
+        wo = [(k, v) for k, v in wr.items() if k in ro_slot]
+        ok_off = bool(ro_slot) and len(wo) == 1 and wo[0][1] in inits and isnode(inits[wo[0][1]]) and \
+            any(isnode(y) and y["k"] == "BinaryOperator" and y["op"] == "-" for y in walk(inits[wo[0][1]])) and ro_slot != r_slot
+        ctx.ob("C20.R6b", "%s:mapping-length-recorded" % a.name.replace("quill::detail::", ""), ok_len and ok_off,
+               "the length handed to mmap is the variable stored in the header slot (%s bytes before the block) that _free_aligned reads "
+               "its munmap length from (%s); the offset to the mapping's start is stored and read back at its own slot (%s / %s)"
+               % (w_slot, r_slot, [k for k, v in wo], ro_slot), fn=a)
